@@ -298,12 +298,14 @@ func (c *vcfsConc) exec(w int, hs map[int]File, op vcfsOp) {
 				c.api.mu.Lock()
 				// (with several concurrent Sync callers the last saved text need not be ours;
 				// concurrent savers therefore use MarshalManifest, Sync is used by one saver only)
-				if err == nil && len(c.api.saved) > n {
+				updated := len(c.api.saved) > n
+				if err == nil && updated {
 					txt = c.api.saved[len(c.api.saved)-1]
-				} else if err == nil {
-					err = fmt.Errorf("verif: Sync returned nil without saving")
 				}
 				c.api.mu.Unlock()
+				if err == nil && !updated {
+					txt, err = fs.MarshalManifest(".") // nothing was sent: what it would have saved
+				}
 			} else {
 				txt, err = fs.MarshalManifest(".")
 			}
@@ -389,16 +391,29 @@ func vcfsAnyRunnable() bool {
 	return false
 }
 
+// finalChecks: at quiescence the whole tree, then a save that must describe it, then the tree
+// again - on a goroutine of its own under the same deadlock criterion as the workers (a save that
+// never returns, e.g. because throttle slots leaked, must not end as a go test timeout).
 func (c *vcfsConc) finalChecks() {
 	// background goroutines of released writes may still be between PutB and their critical section
 	for i := 0; i < 2000 && c.keep.inflightNow() > 0; i++ {
 		time.Sleep(time.Millisecond)
 	}
-	// quiescent: whole tree, then a save that must describe it, then the tree again
-	c.snap()
-	hs := map[int]File{}
-	c.exec(0, hs, vcfsOp{Op: "marshal", D: "marshal"})
-	c.snap()
+	done := make(chan struct{})
+	gidc := make(chan string, 1)
+	go func() {
+		defer close(done)
+		gidc <- vcfsGoID()
+		c.snap()
+		hs := map[int]File{}
+		c.exec(0, hs, vcfsOp{Op: "marshal", D: "marshal"})
+		c.snap()
+	}()
+	g := <-gidc
+	c.mu.Lock()
+	c.lastRet = time.Now()
+	c.mu.Unlock()
+	c.quiet(done, func() []string { return []string{g} })
 }
 
 // ---------------------------------------------------------------------------------------------
@@ -904,7 +919,33 @@ func vcfsRunDirOnce(scn vcfsConcScenario, rep int) []vcfsEvent {
 			}
 			time.Sleep(time.Millisecond)
 		}
-		c.exec(scn.Dir[1-ren].W, map[int]File{}, vcfsDirToOp(scn.Dir[1-ren]))
+		// The other call runs on its own goroutine: in the code as it is nobody but Rename takes
+		// the filesystem-wide mutex, but a repair might make Remove / Mkdir / OpenFile take it too;
+		// then this schedule cannot be replayed: release the mutex and let both calls finish
+		// (whatever they do is judged; the missed schedule is reported as drift).
+		other := make(chan string, 1)
+		run(scn.Dir[1-ren], other)
+		og := <-other
+		inapplicable := false
+		for i := 0; ; i++ {
+			gmu.Lock()
+			running := gids[og]
+			gmu.Unlock()
+			if !running {
+				break
+			}
+			st := vcfsGoState(og)
+			if i > 3000 || (i > 20 && (strings.Contains(st, "Mutex.Lock") || strings.Contains(st, "semacquire")) && !vcfsAnyRunnable()) {
+				inapplicable = true
+				break
+			}
+			time.Sleep(time.Millisecond)
+		}
+		if inapplicable {
+			c.mu.Lock()
+			c.events[0]["inapplicable"] = true
+			c.mu.Unlock()
+		}
 		mtx.Unlock()
 	} else {
 		for _, d := range scn.Dir {
